@@ -117,7 +117,8 @@ def r3(ctx):
     ok = False
     if len(r) == 1 and isinstance(r[0].value, ast.Call) and len(r[0].value.args) == 2:
         c = r[0].value
-        ok = U(c.args[0]) == "self.screen" and Norm(strict=False).b(c.args[1]) == _bn("self.selection_vector | other.selection_vector") \
+        cenv = single_defs(f.node)
+        ok = U(c.args[0]) == "self.screen" and Norm(strict=False).b(inline(c.args[1], cenv)) == _bn("self.selection_vector | other.selection_vector") \
             and U(c.func) in ("Plate", "ScreenSubset")
     ctx.check("R3", f"{f.site()}::union", ok, "combine = view(self.screen, self.sel | other.sel)",
               f"combine returns `{U(r[0].value) if r else None}`, not the union of the two selections over the same parent")
@@ -132,76 +133,108 @@ def r3(ctx):
     ok = len(r) == 1 and isinstance(r[0].value, ast.Call) and len(r[0].value.args) == 2 and U(r[0].value.args[0]) == "self.screen" \
         and Norm(strict=False).b(r[0].value.args[1]) == _bn("~self.selection_vector")
     ctx.check("R3", f"{f.site()}::complement", ok, "invert = view(self.screen, ~self.sel)", f"invert returns `{U(r[0].value) if r else None}`")
-    # concat
-    f = ctx.fn("data.ScreenSubset.concat")
-    lst = [p for p in f.params if p != "cls"][0]
-    # aliases of list parts: first, *rest = L ; first = L[0] ; rest = L[1:] ; parent = first.screen
-    env = dict(single_defs(f.node))
-    for n in walk_own(f.node):
-        if isinstance(n, ast.Assign) and len(n.targets) == 1 and isinstance(n.targets[0], (ast.Tuple, ast.List)) and U(n.value) == lst:
-            els = n.targets[0].elts
-            if len(els) == 2 and isinstance(els[0], ast.Name) and isinstance(els[1], ast.Starred) and isinstance(els[1].value, ast.Name):
-                env[els[0].id] = ast.parse(f"{lst}[0]", mode="eval").body
-                env[els[1].value.id] = ast.parse(f"{lst}[1:]", mode="eval").body
+    def concat_rule():
+        # concat
+        f = ctx.fn("data.ScreenSubset.concat")
+        lst = [p for p in f.params if p != "cls"][0]
+        # aliases of list parts: first, *rest = L ; first = L[0] ; rest = L[1:] ; parent = first.screen
+        env = dict(single_defs(f.node))
+        for n in walk_own(f.node):
+            if isinstance(n, ast.Assign) and len(n.targets) == 1 and isinstance(n.targets[0], (ast.Tuple, ast.List)) and U(n.value) == lst:
+                els = n.targets[0].elts
+                if len(els) == 2 and isinstance(els[0], ast.Name) and isinstance(els[1], ast.Starred) and isinstance(els[1].value, ast.Name):
+                    env[els[0].id] = ast.parse(f"{lst}[0]", mode="eval").body
+                    env[els[1].value.id] = ast.parse(f"{lst}[1:]", mode="eval").body
 
-    def C(e):
-        return U(inline(e, {k: v for k, v in env.items() if k != "selection_vector"})).replace(" ", "")
-    loops = [n for n in walk_own(f.node) if isinstance(n, ast.For) and C(n.iter) in (lst, f"{lst}[1:]") and isinstance(n.target, ast.Name)
-             and any(isinstance(x, (ast.Assign, ast.AugAssign)) for x in ast.walk(n))]
-    if len(loops) != 1:
-        raise AnalysisError(f"{f.site()}: the union is not accumulated by one loop over the list (or its tail) - fold form not recognised")
-    loop = loops[0]
-    lv = loop.target.id
-    over = C(loop.iter)
-    acc_updates = [n for n in walk_own(loop) if isinstance(n, (ast.Assign, ast.AugAssign))]
-    acc = None
-    forms = []
-    for n in acc_updates:
-        if isinstance(n, ast.Assign) and isinstance(n.targets[0], ast.Name):
-            acc = acc or n.targets[0].id
-            forms.append(U(n.value).replace(" ", ""))
-        elif isinstance(n, ast.AugAssign):
-            forms.append("AUG:" + U(n).replace(" ", ""))
-    inits = [n for n in walk_own(f.node) if isinstance(n, ast.Assign) and acc and U(n.targets[0]) == acc and n not in acc_updates]
-    init = C(inits[0].value) if len(inits) == 1 else None
-    step = {f"{acc}|{lv}.selection_vector", f"{lv}.selection_vector|{acc}"}
-    if init == "None":
-        # first element seeds the accumulator inside the loop
-        fold_ok = over == lst and set(forms) <= step | {f"{lv}.selection_vector"} and f"{lv}.selection_vector" in forms and bool(set(forms) & step)
-    elif init == f"{lst}[0].selection_vector":
-        fold_ok = over in (lst, f"{lst}[1:]") and set(forms) <= step and bool(forms)
-    else:
-        fold_ok = False
-    ctx.check("R3", f"{f.site()}::fold", acc is not None and fold_ok,
-              "accumulator starts at the first selection and is OR-ed (out of place) with each further one",
-              f"concat accumulates with {forms} from `{init}` over `{over}`")
-    from engine.astutil import raise_guards
-    Ng = Norm(strict=False)
-    parent_guard = False
-    empty_guard = False
-    P = f"{lst}[0].screen"
-    for n in walk_own(f.node):
-        if isinstance(n, ast.If) and n.body and isinstance(n.body[-1], ast.Raise):
-            t = n.test
-            tx = C(t)
-            if tx in (f"len({lst})==0", f"not{lst}", f"len({lst})<1"):
-                empty_guard = True
-            # per-element identity test inside a loop over the list / its tail
-            par_ = enclosing_map(f.node)
-            lp = par_.get(n)
-            if isinstance(lp, ast.For) and C(lp.iter) in (lst, f"{lst}[1:]") and isinstance(lp.target, ast.Name) and tx in (f"{lp.target.id}.screenisnot{P}", f"{P}isnot{lp.target.id}.screen"):
-                parent_guard = True
-            # any(x.screen is not P for x in list / tail)
-            if isinstance(t, ast.Call) and U(t.func) == "any" and len(t.args) == 1 and isinstance(t.args[0], (ast.GeneratorExp, ast.ListComp)) and len(t.args[0].generators) == 1:
-                g_ = t.args[0].generators[0]
-                if C(g_.iter) in (lst, f"{lst}[1:]") and isinstance(g_.target, ast.Name) and not g_.ifs and C(t.args[0].elt) in (f"{g_.target.id}.screenisnot{P}", f"{P}isnot{g_.target.id}.screen"):
+        def C(e):
+            return U(inline(e, {k: v for k, v in env.items() if k != "selection_vector"})).replace(" ", "")
+        loops = [n for n in walk_own(f.node) if isinstance(n, ast.For) and C(n.iter) in (lst, f"{lst}[1:]") and isinstance(n.target, ast.Name)
+                 and any(isinstance(x, (ast.Assign, ast.AugAssign)) for x in ast.walk(n))]
+        if not loops:
+            # union written as one reduction: np.logical_or.reduce([x.selection_vector for x in L], axis=0)
+            rr0 = [x for x in returns(f.node) if isinstance(x.value, ast.Call) and len(x.value.args) == 2]
+            red = None
+            for x in rr0:
+                v = inline(x.value.args[1], env)
+                if isinstance(v, ast.Call) and U(v.func) in ("np.logical_or.reduce", "np.bitwise_or.reduce") and len(v.args) == 1 and all(k.arg == "axis" and U(k.value) == "0" for k in v.keywords) \
+                        and isinstance(v.args[0], (ast.ListComp, ast.GeneratorExp)) and len(v.args[0].generators) == 1 and not v.args[0].generators[0].ifs:
+                    g_ = v.args[0].generators[0]
+                    if C(g_.iter) == lst and isinstance(g_.target, ast.Name) and U(v.args[0].elt) == f"{g_.target.id}.selection_vector":
+                        red = x
+            if red is not None:
+                ctx.ok("R3", f"{f.site()}::fold", "the union is one element-wise OR-reduction over every element's selection (out of place)")
+                P = f"{lst}[0].screen"
+                parent_guard = empty_guard = False
+                for n in walk_own(f.node):
+                    if isinstance(n, ast.If) and n.body and isinstance(n.body[-1], ast.Raise):
+                        tx = C(n.test)
+                        if tx in (f"len({lst})==0", f"not{lst}", f"len({lst})<1"):
+                            empty_guard = True
+                        t = n.test
+                        if isinstance(t, ast.Call) and U(t.func) == "any" and len(t.args) == 1 and isinstance(t.args[0], (ast.GeneratorExp, ast.ListComp)) and len(t.args[0].generators) == 1:
+                            g2 = t.args[0].generators[0]
+                            if C(g2.iter) in (lst, f"{lst}[1:]") and isinstance(g2.target, ast.Name) and not g2.ifs and C(t.args[0].elt) in (f"{g2.target.id}.screenisnot{P}", f"{P}isnot{g2.target.id}.screen"):
+                                parent_guard = True
+                ctx.check("R3", f"{f.site()}::guards", parent_guard and empty_guard, "refuses empty input and views of different parents",
+                          f"{'no refusal of an empty list; ' if not empty_guard else ''}{'no identity test of every view parent against the first one' if not parent_guard else ''}")
+                ctx.check("R3", f"{f.site()}::result", C(red.value.args[0]) == P, "result is a view of the common parent with the accumulated selection", f"concat returns `{U(red.value)}`")
+                return
+        if len(loops) != 1:
+            raise AnalysisError(f"{f.site()}: the union is not accumulated by one loop over the list (or its tail) - fold form not recognised")
+        loop = loops[0]
+        lv = loop.target.id
+        over = C(loop.iter)
+        acc_updates = [n for n in walk_own(loop) if isinstance(n, (ast.Assign, ast.AugAssign))]
+        acc = None
+        forms = []
+        for n in acc_updates:
+            if isinstance(n, ast.Assign) and isinstance(n.targets[0], ast.Name):
+                acc = acc or n.targets[0].id
+                forms.append(U(n.value).replace(" ", ""))
+            elif isinstance(n, ast.AugAssign):
+                forms.append("AUG:" + U(n).replace(" ", ""))
+        inits = [n for n in walk_own(f.node) if isinstance(n, ast.Assign) and acc and U(n.targets[0]) == acc and n not in acc_updates]
+        init = C(inits[0].value) if len(inits) == 1 else None
+        step = {f"{acc}|{lv}.selection_vector", f"{lv}.selection_vector|{acc}"}
+        if init == "None":
+            # first element seeds the accumulator inside the loop
+            fold_ok = over == lst and set(forms) <= step | {f"{lv}.selection_vector"} and f"{lv}.selection_vector" in forms and bool(set(forms) & step)
+        elif init == f"{lst}[0].selection_vector":
+            fold_ok = over in (lst, f"{lst}[1:]") and set(forms) <= step and bool(forms)
+        else:
+            fold_ok = False
+        ctx.check("R3", f"{f.site()}::fold", acc is not None and fold_ok,
+                  "accumulator starts at the first selection and is OR-ed (out of place) with each further one",
+                  f"concat accumulates with {forms} from `{init}` over `{over}`")
+        from engine.astutil import raise_guards
+        Ng = Norm(strict=False)
+        parent_guard = False
+        empty_guard = False
+        P = f"{lst}[0].screen"
+        for n in walk_own(f.node):
+            if isinstance(n, ast.If) and n.body and isinstance(n.body[-1], ast.Raise):
+                t = n.test
+                tx = C(t)
+                if tx in (f"len({lst})==0", f"not{lst}", f"len({lst})<1"):
+                    empty_guard = True
+                # per-element identity test inside a loop over the list / its tail
+                par_ = enclosing_map(f.node)
+                lp = par_.get(n)
+                if isinstance(lp, ast.For) and C(lp.iter) in (lst, f"{lst}[1:]") and isinstance(lp.target, ast.Name) and tx in (f"{lp.target.id}.screenisnot{P}", f"{P}isnot{lp.target.id}.screen"):
                     parent_guard = True
-    ctx.check("R3", f"{f.site()}::guards", parent_guard and empty_guard, "refuses empty input and views of different parents",
-              f"{'no refusal of an empty list; ' if not empty_guard else ''}{'no identity test of every view parent against the first one' if not parent_guard else ''}")
-    rr = [x for x in returns(f.node) if isinstance(x.value, ast.Call)]
-    ok = len(rr) == 1 and len(rr[0].value.args) == 2 and C(rr[0].value.args[0]) == P and U(rr[0].value.args[1]) == acc
-    ctx.check("R3", f"{f.site()}::result", ok, "result is a view of the common parent with the accumulated selection",
-              f"concat returns `{U(rr[0].value) if rr else None}`")
+                # any(x.screen is not P for x in list / tail)
+                if isinstance(t, ast.Call) and U(t.func) == "any" and len(t.args) == 1 and isinstance(t.args[0], (ast.GeneratorExp, ast.ListComp)) and len(t.args[0].generators) == 1:
+                    g_ = t.args[0].generators[0]
+                    if C(g_.iter) in (lst, f"{lst}[1:]") and isinstance(g_.target, ast.Name) and not g_.ifs and C(t.args[0].elt) in (f"{g_.target.id}.screenisnot{P}", f"{P}isnot{g_.target.id}.screen"):
+                        parent_guard = True
+        ctx.check("R3", f"{f.site()}::guards", parent_guard and empty_guard, "refuses empty input and views of different parents",
+                  f"{'no refusal of an empty list; ' if not empty_guard else ''}{'no identity test of every view parent against the first one' if not parent_guard else ''}")
+        rr = [x for x in returns(f.node) if isinstance(x.value, ast.Call)]
+        ok = len(rr) == 1 and len(rr[0].value.args) == 2 and C(rr[0].value.args[0]) == P and U(rr[0].value.args[1]) == acc
+        ctx.check("R3", f"{f.site()}::result", ok, "result is a view of the common parent with the accumulated selection",
+                  f"concat returns `{U(rr[0].value) if rr else None}`")
+
+    concat_rule()
     # observed / unobserved
     for name, m in (("subset_observed", "self.observation_mask"), ("subset_unobserved", "~self.observation_mask")):
         f = ctx.fn(f"data.Screen.{name}")
